@@ -22,6 +22,7 @@ structure Env (K X Y Z : Type) [Field K] [AddCommGroup X] [Module K X] [AddCommG
   nX : X → K              -- math.sqrt(xdot(v, v))
   nY : Y → K              -- math.sqrt(ydot(v, v))
   nZ : Z → K              -- misc.snrm2(v, dims)
+  nZraw : Z → K           -- blas.nrm2 applied to a cone vector: the norm of the stored array, which also reads the unreferenced triangles
   dX : X → X → K          -- xdot
   dY : Y → Y → K          -- ydot
   dZ : Z → Z → K          -- misc.sdot(., ., dims)
